@@ -43,6 +43,12 @@ func c12Grammars(sw *sweeper, tier string) []*gram.Grammar {
 		}
 	}
 	gs = append(gs, gram.Mk("E: E plus E | E times E | a"))
+	// tokens declared in the lexical part but used by no syntax rule, ignored tokens, a regular definition
+	u := gram.Mk("S: a S b | c")
+	u.Lex = append(u.Lex, gram.LexDef{Name: "unused", Kind: "tok", P: gram.Seq(gram.Lit('u'), gram.Rep(gram.Ref("_d")))},
+		gram.LexDef{Name: "_d", Kind: "reg", P: gram.Rng('0', '9')}, gram.LexDef{Name: "!ws", Kind: "ign", P: gram.AltP(gram.Lit(' '), gram.Lit('\n'))},
+		gram.LexDef{Name: "zlast", Kind: "tok", P: gram.Lit('z')})
+	gs = append(gs, u)
 	return gs
 }
 
